@@ -242,11 +242,27 @@ pub struct LayerCase {
 }
 
 pub fn layer_strategy(max_dim: u32) -> BoxedStrategy<LayerCase> {
-    (4u32..=max_dim, 4u32..=max_dim, 0.5f32..2.0, prop_oneof![2 => 0.2f32..2.0, 3 => log_uniform(-1.0, 4.0)], 2usize..=5, any::<bool>())
-        .prop_flat_map(|(bw, bh, focal, near, n, camera)| {
-            let far = near * 40.0;
+    // (on/off, relative gap, depth of the first layer as a fraction of the way (log scale) from 2 near to far/2, far/near)
+    let thin = (prop::bool::weighted(0.3), log_uniform(-5.4, -2.0), 0.0f32..1.0, log_uniform(1.6, 5.0));
+    (4u32..=max_dim, 4u32..=max_dim, 0.5f32..2.0, prop_oneof![2 => 0.2f32..2.0, 3 => log_uniform(-1.0, 4.0)], 2usize..=5, any::<bool>(), thin)
+        .prop_flat_map(|(bw, bh, focal, near, n, camera, thin)| {
+            let far = if thin.0 { near * thin.3 } else { near * 40.0 };
             let aspect = bw as f32 / bh as f32;
             // layer k occupies view depths [near*(1.5+3k), near*(3.5+3k)]
+            if thin.0 {
+                // camera-facing layers (constant view depth each) whose depths differ by a relative gap of 4e-6 .. 1e-2 only,
+                // anywhere between 2 near and far/2, with far/near from 40 to 1e5: disjoint depth ranges all the same
+                let g = thin.1;
+                let zf = 2.0 * (thin.3 / 4.0 / (1.0 + g).powi(5)).max(1.0).powf(thin.2);
+                let layers: Vec<BoxedStrategy<[[f32; 3]; 3]>> = (0..n)
+                    .map(|k| {
+                        let z = near * zf * (1.0 + g).powi(k as i32);
+                        let v = move || (-1.3f32..1.3, -1.3f32..1.3).prop_map(move |(rx, ry)| [rx * z / focal, ry * z / (focal * aspect), z]);
+                        [v(), v(), v()].boxed()
+                    })
+                    .collect();
+                return (Just((bw, bh, focal, near, far, camera)), layers, Just((0..n).collect::<Vec<usize>>()).prop_shuffle());
+            }
             let layers: Vec<BoxedStrategy<[[f32; 3]; 3]>> = (0..n)
                 .map(|k| {
                     let (z0, z1) = (near * (1.5 + 3.0 * k as f32), near * (3.5 + 3.0 * k as f32));
@@ -310,6 +326,14 @@ pub fn check_layers(c: &LayerCase, obs: &mut Obs) -> Check {
         obs.nontrivial(hash_of(&(&sc.tris, &c.order)));
     }
     obs.class(if sc.door == Door::Camera { "door:camera" } else { "door:render" });
+    {
+        // smallest relative depth gap between consecutive layers (view depth = third coordinate of the scene's triangles is
+        // not kept; measured on clip w)
+        let mut ws: Vec<(f64, f64)> = (0..sc.tris.len()).map(|t| { let c = clip64(sc, t); let w = [c[0][3], c[1][3], c[2][3]]; (w.iter().cloned().fold(f64::MAX, f64::min), w.iter().cloned().fold(f64::MIN, f64::max)) }).collect();
+        ws.sort_by(|a, b| a.0.partial_cmp(&b.0).unwrap());
+        let gap = ws.windows(2).map(|p| (p[1].0 - p[0].1) / p[1].0).fold(f64::MAX, f64::min);
+        obs.class(if gap < 1e-4 { "layers:relative depth gap < 1e-4" } else if gap < 1e-2 { "layers:relative depth gap 1e-4..1e-2" } else { "layers:relative depth gap > 1e-2" });
+    }
     if let Some(Proj::Perspective { far, .. }) = &sc.proj {
         if far.0 > 1e4 {
             obs.class("far-plane>1e4");
